@@ -26,25 +26,25 @@ type Gen struct {
 	fn  *ssa.Function
 	con *Contract
 
-	decls     []string
-	asserts   []string
-	declared  map[string]bool
-	bases     map[string]*baseInfo
-	baseOrder []string
-	nver      int
-	nfresh    int
-	obls      []*pending
-	anchors   map[string]int
-	reject    string
-	dry       bool
-	cellClo   map[string]*Closure
-	loopMods  map[string]map[string]bool // loop id (frame prefix + header) -> bases havocked at the header
-	modGrew   bool
+	decls           []string
+	asserts         []string
+	declared        map[string]bool
+	bases           map[string]*baseInfo
+	baseOrder       []string
+	nver            int
+	nfresh          int
+	obls            []*pending
+	anchors         map[string]int
+	reject          string
+	dry             bool
+	cellClo         map[string]*Closure
+	loopMods        map[string]map[string]bool // loop id (frame prefix + header) -> bases havocked at the header
+	modGrew         bool
 	usedAssumptions map[string]bool
-	retSites  []retSite
-	top       *frame
-	inlineSeq int
-	horizon   int // when > 0: number of asserts visible to obligations added now (loop / post obligations added after translation)
+	retSites        []retSite
+	top             *frame
+	inlineSeq       int
+	horizon         int // when > 0: number of asserts visible to obligations added now (loop / post obligations added after translation)
 }
 
 type pending struct {
@@ -67,34 +67,34 @@ type retSite struct {
 }
 
 type frame struct {
-	g       *Gen
-	fn      *ssa.Function
-	key     string
-	prefix  string
-	env     map[ssa.Value]*Term
-	parent  *frame // dynamic caller
-	con     *Contract
-	depth   int
-	inline  string // inline chain for obligation anchors
-	clo     *Closure
-	params  []*Term
+	g      *Gen
+	fn     *ssa.Function
+	key    string
+	prefix string
+	env    map[ssa.Value]*Term
+	parent *frame // dynamic caller
+	con    *Contract
+	depth  int
+	inline string // inline chain for obligation anchors
+	clo    *Closure
+	params []*Term
 
-	backEdge map[[2]int]bool
-	heads    map[int]int // header block -> loop ordinal
-	loopBody map[int]map[int]bool
-	order    []*ssa.BasicBlock
-	in       map[int]*state
-	out      map[int]*state
-	edge     map[[2]int]string
-	outHz    map[int]int // number of asserts when the block's translation finished
-	headSt   map[int]*state
-	entry    *state
-	rets     []retSite
-	idom     map[int]int
-	domDepth map[int]int
-	locals   map[*ssa.Alloc]bool
-	iterOf   map[ssa.Value]*mapIter
-	sortPerm string
+	backEdge  map[[2]int]bool
+	heads     map[int]int // header block -> loop ordinal
+	loopBody  map[int]map[int]bool
+	order     []*ssa.BasicBlock
+	in        map[int]*state
+	out       map[int]*state
+	edge      map[[2]int]string
+	outHz     map[int]int // number of asserts when the block's translation finished
+	headSt    map[int]*state
+	entry     *state
+	rets      []retSite
+	idom      map[int]int
+	domDepth  map[int]int
+	locals    map[*ssa.Alloc]bool
+	iterOf    map[ssa.Value]*mapIter
+	sortPerm  string
 	curBlock  *ssa.BasicBlock
 	curSplits []string // selection conditions of the incoming edges of the block being translated (join blocks only)
 }
@@ -746,8 +746,9 @@ func (fr *frame) loopObligations(b *ssa.BasicBlock, ord int) {
 	fr.exitObligations(b, ord, ls)
 	if ls.Var != "" {
 		found := false
+		lv := mapRenamed(g.Eng.renameFor(fr.key, fr.fn), ls.Var)
 		for _, ins := range b.Instrs {
-			if ph, ok := ins.(*ssa.Phi); ok && ph.Comment == ls.Var {
+			if ph, ok := ins.(*ssa.Phi); ok && ph.Comment == lv {
 				found = true
 			}
 		}
